@@ -37,6 +37,55 @@ Theorem C14_pieces_valid : forall stops limit ts,
 Proof. intros. apply (Inv_pieces_valid stops), Inv_settle, Inv_run; assumption. Qed.
 Print Assumptions C14_pieces_valid.
 
+(** exactness: a finished sequence streamed the whole generated text (EOS / limit, no stop in it) or exactly
+    the text before the EARLIEST occurrence of any stop, except for an invalid UTF-8 tail of the part that was
+    still pending when it finished ([trim_valid body = body] when [body] is valid UTF-8) *)
+Theorem C14_finished_exact : forall stops limit ts,
+  (forall t, In t stops -> t <> []) -> lossless_run stops limit init ts ->
+  fin (final stops limit ts) <> None ->
+  exists F body,
+    ((StopFree stops (gen (final stops limit ts)) /\ F ++ body = gen (final stops limit ts)) \/
+     (exists k, EarliestStop stops (gen (final stops limit ts)) k /\ F ++ body = firstn k (gen (final stops limit ts)))) /\
+    output (final stops limit ts) = F ++ trim_valid body.
+Proof. intros stops limit ts H1 H2 H3. apply (Inv_finished_exact stops); [apply Inv_settle, Inv_run; assumption | exact H3]. Qed.
+Print Assumptions C14_finished_exact.
+
+(** finish reason: "length" exactly when the prediction limit stopped the sequence at a batch boundary; "stop" when
+    the token just sampled was EOS or completed a stop sequence (the code has one reason for both) *)
+Theorem C14_reason : forall stops limit ts r,
+  fin (run stops limit ts) = Some r ->
+  exists ts1 t ts2, ts = ts1 ++ t :: ts2 /\ fin (run stops limit ts1) = None /\
+    match r with
+    | RLength => at_limit limit (run stops limit ts1) = true
+    | RStop => at_limit limit (run stops limit ts1) = false /\
+               (t = EOS \/ exists p stop, t = Piece p /\
+                  find_stop (concat (pending (run stops limit ts1) ++ [p])) stops = Some stop)
+    end.
+Proof.
+  intros stops limit ts r H. destruct (run_finish_point stops limit ts init r eq_refl H) as [ts1 [t [ts2 [E [H1 H2]]]]].
+  exists ts1, t, ts2. split; [exact E|]. split; [exact H1|]. exact (step_finishes stops limit _ t r H1 H2).
+Qed.
+Print Assumptions C14_reason.
+
+(** FindStop picks a stop whose first occurrence is earliest (what the fix: commit established) *)
+Theorem C14_find_stop_earliest : forall seq stops stop,
+  find_stop seq stops = Some stop ->
+  exists i, In stop stops /\ index_of seq stop = Some i /\
+            forall s' j, In s' stops -> index_of seq s' = Some j -> i <= j.
+Proof. exact find_stop_some. Qed.
+Print Assumptions C14_find_stop_earliest.
+
+(** the pinned upstream FindStop (first stop in list order) violates stop-freeness: kept as the record of the
+    repaired defect *)
+Theorem C14_listorder_findstop_refuted :
+  exists seq stops stop i, find_stop_listorder seq stops = Some stop /\ index_of seq stop = Some i /\
+    exists t, In t stops /\ Infix t (firstn i seq).
+Proof.
+  exists [97; 98]%N, [[98]; [97]]%N, [98]%N, 1. split; [reflexivity|]. split; [reflexivity|].
+  exists [97]%N. split; [right; left; reflexivity|]. exists [], []. reflexivity.
+Qed.
+Print Assumptions C14_listorder_findstop_refuted.
+
 (** non-vacuity: a run with a stop split across pieces and a multi-byte character split across pieces meets
     the hypotheses, and ends before the stop *)
 Example C14_nonvacuous :
